@@ -695,6 +695,18 @@ def v_rel_cont_before(d, rng):
     d["rel_times"] = [d["start"] - sgn(d) * 2 * d["rel_cont"]]
 
 
+def f_rel_cont_gap(d, rng):
+    """continuous release whose only file entry lies one step before the start and whose frequency is longer than
+    what is left of the window: the repeated release instants first + k * frequency jump over the whole window"""
+    if not timed(d):
+        return False
+    if d["rel_cont"] is None:
+        return False
+    nsteps = abs(d["stop"] - d["start"]) // d["dt"]
+    d["rel_cont"] = (nsteps + 3) * d["dt"]
+    d["rel_times"] = [d["start"] - sgn(d) * d["dt"]]
+
+
 def f_rel_nopos(d, rng):
     d["rel_pos"] = "none"
 
@@ -796,7 +808,7 @@ INJECTORS = [
     f_forcing_late, f_forcing_early_end, f_forcing_first_inside, f_forcing_last_inside, f_forcing_last_at_step_end,
     v_forcing_tight, f_swap_inside, f_swap_boundary, f_duplicate, f_swap_interior, f_dup_interior,
     f_no_start, f_no_stop, f_no_dt, f_dt_zero, f_flip, f_start_eq_stop,
-    f_rel_before, f_rel_after, f_rel_at_stop, v_rel_at_start, v_rel_last_step, v_rel_cont_before,
+    f_rel_before, f_rel_after, f_rel_at_stop, v_rel_at_start, v_rel_last_step, v_rel_cont_before, f_rel_cont_gap,
     f_rel_nopos, f_rel_rowgap, f_rel_missing, f_rel_empty_name, f_rel_nokey,
     f_forcing_nomatch, f_forcing_nomatch_inferred, f_forcing_noframes, f_grid_missing,
     *[mk_sec(n, "missing") for n in ("time", "forcing", "release", "tracker", "output")],
